@@ -6,8 +6,19 @@
  * asked to, and writes every request / release into a trace.  libc `free` is wrapped at link time
  * (-Wl,--wrap=free): a block of the injected allocator that reaches libc free is a FOREIGN release
  * (trace token X), a block that reaches the injected free without having come from the injected
- * allocator is an ALIEN release (trace token A).  ASan/UBSan stay on (the injected allocator sits on
+ * allocator is an ALIEN release (trace token A), a block that the injected allocator has already taken
+ * back is a DOUBLE release (trace token D).  Neither is handed to the real free(): the registry keeps a
+ * table of live blocks and a table of returned blocks, so the accounting never corrupts its own state and
+ * the violation is reported instead of aborting.  ASan/UBSan stay on (the injected allocator sits on
  * top of the sanitizer's malloc).
+ *
+ * `pair`: two table operations are run by two threads under a deterministic schedule driven from the
+ * allocator hook (see sched_hook): thread A is started first and runs until its first allocation request,
+ * then thread B is started; A waits there until B has reached its first request too (or has returned, or
+ * SCHED_MS have passed - B is then blocked on the table lock A holds), B waits at its first request
+ * until A's operation has returned (or SCHED_B_MS have passed - A then needs a lock B holds).  Code
+ * that allocates inside the write lock simply runs A then B; code that allocates outside the lock has
+ * both operations in flight between their look-up and their update.
  *
  * ht-spkitable.c is #included (and excluded from the separately compiled sources) so that the private
  * `struct key_entry` is the repo's own declaration.  Protocol: see lean/Driver/Alloc.lean.
@@ -24,11 +35,14 @@
 #include "rtrlib/transport/transport.h"
 
 #include <ctype.h>
+#include <errno.h>
+#include <pthread.h>
 #include <stdarg.h>
 #include <stdbool.h>
 #include <stdio.h>
 #include <stdlib.h>
 #include <string.h>
+#include <time.h>
 
 /* mirrors of the two private structs of trie-pfx.c (sizes enter the trace: a change shows up as a
  * trace divergence at once) */
@@ -76,6 +90,60 @@ static void tr_reset(void)
 		trace[0] = 0;
 }
 
+/* ------------------------------------------------------------------ two-thread schedule */
+#define SCHED_MS 120    /* A waits this long for B to reach its first request (B may be blocked on A's lock) */
+#define SCHED_B_MS 1000 /* B lets A finish first; only runs out when A needs a lock B holds */
+static struct {
+	pthread_mutex_t mu;
+	pthread_cond_t cv;
+	bool active;
+	bool arrived[2]; /* reached its first allocation request */
+	bool done[2];    /* operation returned */
+	bool timeout[2]; /* gave up waiting for the other one */
+	bool met;        /* both operations were in flight at their first request at the same time */
+} sch = {.mu = PTHREAD_MUTEX_INITIALIZER, .cv = PTHREAD_COND_INITIALIZER};
+static __thread int sched_me = -1; /* 0 = A, 1 = B, -1 = main thread */
+static __thread bool sched_hooked;
+
+static void deadline_in(struct timespec *ts, long ms)
+{
+	clock_gettime(CLOCK_REALTIME, ts);
+	ts->tv_nsec += (ms % 1000) * 1000000L;
+	ts->tv_sec += ms / 1000 + ts->tv_nsec / 1000000000L;
+	ts->tv_nsec %= 1000000000L;
+}
+
+/* called at the start of every allocation request (malloc / realloc), outside the allocator's mutex */
+static void sched_hook(void)
+{
+	struct timespec ts;
+	int me = sched_me;
+
+	if (me < 0 || sched_hooked || !sch.active)
+		return;
+	sched_hooked = true;
+	pthread_mutex_lock(&sch.mu);
+	sch.arrived[me] = true;
+	pthread_cond_broadcast(&sch.cv);
+	deadline_in(&ts, me == 0 ? SCHED_MS : SCHED_B_MS);
+	if (me == 0) {
+		while (!sch.arrived[1] && !sch.done[1])
+			if (pthread_cond_timedwait(&sch.cv, &sch.mu, &ts) == ETIMEDOUT) {
+				sch.timeout[0] = !sch.arrived[1] && !sch.done[1];
+				break;
+			}
+	} else {
+		if (sch.arrived[0] && !sch.done[0])
+			sch.met = true;
+		while (!sch.done[0])
+			if (pthread_cond_timedwait(&sch.cv, &sch.mu, &ts) == ETIMEDOUT) {
+				sch.timeout[1] = !sch.done[0];
+				break;
+			}
+	}
+	pthread_mutex_unlock(&sch.mu);
+}
+
 /* ------------------------------------------------------------------ injected allocator */
 struct blk {
 	void *p;
@@ -83,10 +151,13 @@ struct blk {
 	struct blk *next;
 };
 #define NB 8192
-static struct blk *reg[NB];
+static pthread_mutex_t alloc_mu = PTHREAD_MUTEX_INITIALIZER;
+static struct blk *reg[NB];  /* live blocks */
+static struct blk *dead[NB]; /* blocks the allocator has taken back (until the address is handed out again) */
 static long live_blocks;
 static long foreign_frees; /* injected block released through libc free */
-static long alien_frees;   /* non-injected block released through the injected free / realloc */
+static long alien_frees;   /* block never handed out by the injected allocator given to its free / realloc */
+static long double_frees;  /* block already taken back given to the injected free / realloc again */
 static long req_idx;
 static long fail_at = -1;
 
@@ -95,84 +166,130 @@ static size_t hp(const void *p)
 	return (size_t)(((uintptr_t)p >> 4) * 2654435761u) % NB;
 }
 
-static struct blk *reg_find(const void *p)
+static struct blk *tab_find(struct blk **tab, const void *p)
 {
-	for (struct blk *b = reg[hp(p)]; b; b = b->next)
+	for (struct blk *b = tab[hp(p)]; b; b = b->next)
 		if (b->p == p)
 			return b;
 	return NULL;
 }
 
-static void reg_add(void *p, size_t sz)
+static struct blk *tab_take(struct blk **tab, const void *p)
 {
-	struct blk *b = malloc(sizeof(*b));
-
-	b->p = p;
-	b->sz = sz;
-	b->next = reg[hp(p)];
-	reg[hp(p)] = b;
-	live_blocks++;
-}
-
-static bool reg_del(const void *p, size_t *sz)
-{
-	for (struct blk **pp = &reg[hp(p)]; *pp; pp = &(*pp)->next) {
+	for (struct blk **pp = &tab[hp(p)]; *pp; pp = &(*pp)->next) {
 		if ((*pp)->p == p) {
 			struct blk *b = *pp;
 
 			*pp = b->next;
-			if (sz)
-				*sz = b->sz;
-			__real_free(b);
-			live_blocks--;
-			return true;
+			return b;
 		}
 	}
-	return false;
+	return NULL;
+}
+
+static void tab_put(struct blk **tab, struct blk *b)
+{
+	b->next = tab[hp(b->p)];
+	tab[hp(b->p)] = b;
+}
+
+static struct blk *reg_find(const void *p)
+{
+	return tab_find(reg, p);
+}
+
+static void reg_add(void *p, size_t sz)
+{
+	struct blk *b = tab_take(dead, p); /* the address is in use again */
+
+	if (!b)
+		b = malloc(sizeof(*b));
+	b->p = p;
+	b->sz = sz;
+	tab_put(reg, b);
+	live_blocks++;
+}
+
+/* the block leaves the table of live blocks and is remembered as returned */
+static bool reg_del(const void *p, size_t *sz)
+{
+	struct blk *b = tab_take(reg, p);
+
+	if (!b)
+		return false;
+	if (sz)
+		*sz = b->sz;
+	tab_put(dead, b);
+	live_blocks--;
+	return true;
+}
+
+/* a block that is not live reached free / realloc: returned twice, or never ours.  Reported, and NOT
+ * handed to the real free(). */
+static void not_live(const void *ptr)
+{
+	struct blk *d = tab_find(dead, ptr);
+
+	if (d) {
+		double_frees++;
+		tr_add("D%zu", d->sz);
+	} else {
+		alien_frees++;
+		tr_add("A");
+	}
 }
 
 static void *inj_malloc(size_t size)
 {
 	void *p;
 
+	sched_hook();
+	pthread_mutex_lock(&alloc_mu);
 	if (req_idx++ == fail_at) {
 		tr_add("M%zu!", size);
+		pthread_mutex_unlock(&alloc_mu);
 		return NULL;
 	}
 	p = malloc(size ? size : 1);
 	reg_add(p, size);
 	tr_add("M%zu", size);
+	pthread_mutex_unlock(&alloc_mu);
 	return p;
 }
 
 static void *inj_realloc(void *ptr, size_t size)
 {
 	size_t old = 0;
+	bool ours = false;
 	void *p;
 
+	sched_hook();
+	pthread_mutex_lock(&alloc_mu);
 	if (ptr) {
 		struct blk *b = reg_find(ptr);
 
-		if (b)
+		if (b) {
 			old = b->sz;
-		else {
-			alien_frees++;
-			tr_add("A");
+			ours = true;
+		} else {
+			not_live(ptr);
 		}
 	}
 	if (req_idx++ == fail_at) {
 		tr_add("R%zu>%zu!", old, size);
+		pthread_mutex_unlock(&alloc_mu);
 		return NULL;
 	}
 	/* always move the block, so that a stale pointer into the old block is caught by ASan */
 	p = malloc(size ? size : 1);
-	if (ptr) {
+	if (ours) {
 		memcpy(p, ptr, old < size ? old : size);
-		if (reg_del(ptr, NULL))
-			__real_free(ptr);
+		reg_del(ptr, NULL);
+		__real_free(ptr);
 	}
 	reg_add(p, size);
 	tr_add("R%zu>%zu", old, size);
+	pthread_mutex_unlock(&alloc_mu);
 	return p;
 }
 
@@ -182,14 +299,14 @@ static void inj_free(void *ptr)
 
 	if (!ptr)
 		return;
+	pthread_mutex_lock(&alloc_mu);
 	if (reg_del(ptr, &sz)) {
 		tr_add("F%zu", sz);
 		__real_free(ptr);
 	} else {
-		alien_frees++;
-		tr_add("A");
-		__real_free(ptr);
+		not_live(ptr);
 	}
+	pthread_mutex_unlock(&alloc_mu);
 }
 
 /* every call of libc free in the whole executable lands here */
@@ -197,10 +314,14 @@ void __wrap_free(void *ptr)
 {
 	size_t sz;
 
-	if (ptr && reg_find(ptr)) {
-		reg_del(ptr, &sz);
-		foreign_frees++;
-		tr_add("X%zu", sz);
+	if (ptr) {
+		pthread_mutex_lock(&alloc_mu);
+		if (reg_find(ptr)) {
+			reg_del(ptr, &sz);
+			foreign_frees++;
+			tr_add("X%zu", sz);
+		}
+		pthread_mutex_unlock(&alloc_mu);
 	}
 	__real_free(ptr);
 }
@@ -215,6 +336,7 @@ static bool klive[NTAB], kcb[NTAB];
 static struct rtr_socket socks[NSRC];
 static struct tr_socket trs;
 
+static pthread_mutex_t log_mu = PTHREAD_MUTEX_INITIALIZER;
 static char *plogbuf[NTAB], *klogbuf[NTAB];
 static size_t ploglen[NTAB], plogcap[NTAB], kloglen[NTAB], klogcap[NTAB];
 
@@ -257,7 +379,9 @@ static void p_update_cb(struct pfx_table *p, const struct pfx_record rec, const 
 		return;
 	fmt_prec(b, sizeof(b), &rec);
 	snprintf(c, sizeof(c), " %c%s", added ? '+' : '-', b);
+	pthread_mutex_lock(&log_mu); /* callbacks run outside the table lock: two threads may be here */
 	logappend(&plogbuf[t], &ploglen[t], &plogcap[t], c);
+	pthread_mutex_unlock(&log_mu);
 }
 
 static void fmt_hex(char *out, const uint8_t *b, size_t n)
@@ -298,7 +422,9 @@ static void k_update_cb(struct spki_table *p, const struct spki_record rec, cons
 		return;
 	fmt_kfields(b, rec.asn, rec.ski, rec.spki, rec.socket);
 	snprintf(c, sizeof(c), " %c%s", added ? '+' : '-', b);
+	pthread_mutex_lock(&log_mu);
 	logappend(&klogbuf[t], &kloglen[t], &klogcap[t], c);
+	pthread_mutex_unlock(&log_mu);
 }
 
 /* ------------------------------------------------------------------ parsing */
@@ -552,6 +678,88 @@ static void print_kresult(int rc, struct spki_record *res, unsigned int n)
 	}
 }
 
+/* ------------------------------------------------------------------ pair: two operations, two threads */
+struct pop {
+	int kind; /* 0 padd, 1 prm, 2 kadd, 3 krm */
+	int t;
+	struct pfx_record pr;
+	struct spki_record kr;
+	int me;
+	int rc;
+};
+
+static bool parse_pop(char **w, int n, int t, struct pop *o)
+{
+	memset(o, 0, sizeof(*o));
+	o->t = t;
+	if (n == 7 && (!strcmp(w[0], "padd") || !strcmp(w[0], "prm"))) {
+		o->kind = !strcmp(w[0], "padd") ? 0 : 1;
+		return parse_prec(w + 1, &o->pr);
+	}
+	if (n == 5 && (!strcmp(w[0], "kadd") || !strcmp(w[0], "krm")) && klive[t]) {
+		o->kind = !strcmp(w[0], "kadd") ? 2 : 3;
+		return parse_krec(w + 1, &o->kr);
+	}
+	return false;
+}
+
+static void *pop_thread(void *arg)
+{
+	struct pop *o = arg;
+
+	sched_me = o->me;
+	sched_hooked = false;
+	switch (o->kind) {
+	case 0:
+		o->rc = pfx_table_add(&ptabs[o->t], &o->pr);
+		break;
+	case 1:
+		o->rc = pfx_table_remove(&ptabs[o->t], &o->pr);
+		break;
+	case 2:
+		o->rc = spki_table_add_entry(&ktabs[o->t], &o->kr);
+		break;
+	default:
+		o->rc = spki_table_remove_entry(&ktabs[o->t], &o->kr);
+		break;
+	}
+	pthread_mutex_lock(&sch.mu);
+	sch.done[o->me] = true;
+	pthread_cond_broadcast(&sch.cv);
+	pthread_mutex_unlock(&sch.mu);
+	return NULL;
+}
+
+static void run_pair(struct pop *a, struct pop *b)
+{
+	pthread_t ta, tb;
+	struct timespec ts;
+
+	pthread_mutex_lock(&sch.mu);
+	memset(sch.arrived, 0, sizeof(sch.arrived));
+	memset(sch.done, 0, sizeof(sch.done));
+	memset(sch.timeout, 0, sizeof(sch.timeout));
+	sch.met = false;
+	sch.active = true;
+	pthread_mutex_unlock(&sch.mu);
+	a->me = 0;
+	b->me = 1;
+	pthread_create(&ta, NULL, pop_thread, a);
+	/* B starts when A stands at its first allocation request (or has returned without one) */
+	pthread_mutex_lock(&sch.mu);
+	deadline_in(&ts, 10000);
+	while (!sch.arrived[0] && !sch.done[0])
+		if (pthread_cond_timedwait(&sch.cv, &sch.mu, &ts) == ETIMEDOUT)
+			break;
+	pthread_mutex_unlock(&sch.mu);
+	pthread_create(&tb, NULL, pop_thread, b);
+	pthread_join(ta, NULL);
+	pthread_join(tb, NULL);
+	pthread_mutex_lock(&sch.mu);
+	sch.active = false;
+	pthread_mutex_unlock(&sch.mu);
+}
+
 int main(void)
 {
 	char *line = NULL;
@@ -604,7 +812,8 @@ int main(void)
 			continue;
 		}
 		if (!strcmp(w[0], "live") && n == 1) {
-			printf("live=%ld foreign=%ld alien=%ld\n", live_blocks, foreign_frees, alien_frees);
+			printf("live=%ld foreign=%ld alien=%ld double=%ld\n", live_blocks, foreign_frees, alien_frees,
+			       double_frees);
 			continue;
 		}
 		/* observers: <op> T */
@@ -670,7 +879,24 @@ int main(void)
 		if (n >= 4)
 			t2 = tabidx(w[3]);
 
-		if (!strcmp(w[0], "pnew") && n == 4 && t >= 0 && (!strcmp(w[3], "0") || !strcmp(w[3], "1"))) {
+		if (!strcmp(w[0], "pair") && n >= 9 && k == -1 && t >= 0) {
+			/* pair - T <op> <record> | <op> <record>  (op = padd | prm | kadd | krm, both on table T) */
+			struct pop oa, ob;
+			int bar = -1;
+
+			for (int i = 3; i < n; i++)
+				if (!strcmp(w[i], "|"))
+					bar = i;
+			if (bar < 0 || !parse_pop(w + 3, bar - 3, t, &oa) || !parse_pop(w + bar + 1, n - bar - 1, t, &ob)) {
+				puts("bad-op");
+				continue;
+			}
+			arm(-1);
+			run_pair(&oa, &ob);
+			printf("%d %d sched=%s", oa.rc, ob.rc,
+			       sch.met ? "met" : sch.timeout[0] ? "blocked" : sch.timeout[1] ? "late" : "serial");
+			finish();
+		} else if (!strcmp(w[0], "pnew") && n == 4 && t >= 0 && (!strcmp(w[3], "0") || !strcmp(w[3], "1"))) {
 			/* the previous incarnation must have been freed by the op file ("pfree") or be empty */
 			if (ptabs[t].ipv4 || ptabs[t].ipv6) {
 				puts("bad-op");
